@@ -53,6 +53,7 @@ struct Case {
     occupancy_violations: AtomicU64,
     workers: Vec<Worker>,
     n: u64,
+    panics: std::sync::Mutex<Vec<PanicInfo>>,
 }
 
 struct Tl {
@@ -210,13 +211,21 @@ fn run_case(cfg: &CaseCfg, seed: u64, miri: bool, watchdog: Duration) -> (Arc<Ca
         occupancy_violations: AtomicU64::new(0),
         workers: (0..cfg.threads).map(|_| Worker { phase: AtomicU32::new(IDLE), tid: AtomicU32::new(0), done: AtomicU64::new(0) }).collect(),
         n: cfg.n,
+        panics: std::sync::Mutex::new(vec![]),
     });
     let barrier = Arc::new(Barrier::new(cfg.threads));
     let handles: Vec<_> = (0..cfg.threads)
         .map(|i| {
             let (c, b) = (case.clone(), barrier.clone());
             let (pm, work) = (cfg.pause_pm, cfg.cs_work);
-            std::thread::spawn(move || worker(c, i, seed, pm, work, miri, b))
+            std::thread::spawn(move || {
+                let c2 = c.clone();
+                // A panic in the code under test must become a verdict, not a hang.
+                if let Err(p) = catch(move || worker(c2, i, seed, pm, work, miri, b)) {
+                    c.panics.lock().unwrap().push(p);
+                    c.workers[i].phase.store(DONE, Ordering::SeqCst);
+                }
+            })
         })
         .collect();
     if miri {
@@ -312,6 +321,9 @@ fn main() -> ExitCode {
         }
         if ci < 2 {
             m.sample(|| desc.clone());
+        }
+        for p in case.panics.lock().unwrap().iter() {
+            m.violation(&format!("c43-panic-in-worker:{}", p.site()), json!({"case": desc, "panic": p.what}));
         }
         let occ = case.occupancy_violations.load(Ordering::SeqCst);
         if occ > 0 {
